@@ -310,11 +310,14 @@ def run_property(prop, tier, seed):
         return 3
     if violations:
         seenp = set()
+        seend = set()
         for desc, path, has_input in violations:
+            if desc not in seend and len(seend) < 12:
+                seend.add(desc)
+                print("  violation: %s" % desc[:300])
             if path in seenp:
                 continue
             seenp.add(path)
-            print("  violation: %s" % desc[:300])
             print("VIOLATION property=%s replay=%s%s" % (prop, path, "" if has_input else " no-failing-input-found"))
         return 1
     return 0
